@@ -100,3 +100,32 @@ func cmdCtx(args []string) int {
 	}
 	return 0
 }
+
+// cmdLinPaths prints the paths the LIN rule sees for one continuation parameter:
+// linpaths <function> <param index> [repo]. Debugging aid for rule authors.
+func cmdLinPaths(args []string) int {
+	repo := "/repo"
+	if len(args) > 2 {
+		repo = args[2]
+	}
+	p, err := Load(repo, "")
+	if err != nil {
+		fmt.Fprintln(os.Stderr, err)
+		return 2
+	}
+	fn := p.Fn(args[0])
+	if fn == nil {
+		fmt.Fprintln(os.Stderr, "no such function")
+		return 2
+	}
+	idx := 0
+	fmt.Sscanf(args[1], "%d", &idx)
+	sp := linSpec(p, idx)
+	tr := NewTracer(p, sp, fn)
+	tr.Run()
+	for i, path := range tr.Paths {
+		fmt.Printf("path %d: %s\n", i, tr.FmtPath(path))
+	}
+	fmt.Printf("%d paths trunc=%v escapes=%v\n", len(tr.Paths), tr.Trunc, tr.Escapes)
+	return 0
+}
